@@ -92,6 +92,10 @@ PROPS = {
     "C08": dict(kinds=ALL, modes=["single", "c18"], judge="C08", quick=120, thorough=6000, struct=True,
                 theorems=REFINES + ["Verif.Rec.inv_init", "Verif.Fifo.inv_init", "Verif.Rr.inv_init", "Verif.Lfu.inv_init",
                                     "Verif.Lfuda.inv_init", "Verif.Tlru.inv_init", "Verif.Utlru.inv_init", "Verif.UtMap.inv_init",
-                                    "Verif.C15_rr_bijection", "Verif.Refines.runA", "Verif.Verified.C02_bound"],
-                explain="PARTIAL. Proved: the bookkeeping invariants of every container model hold after every history (resident keys duplicate-free, size <= capacity so the partition point never passes the end and a prune always finds a victim, rr's slot ids + free stack a permutation of 0..cap-1 so no slot is handed out twice, tlru/utlru ttl structure consistent with and sorted like the entries, ut_map list sorted) - these are the model-level reasons the C++ never dereferences end(), never erases through a stale iterator, never indexes out of range. NOT proved: memory safety of the C++ itself (libstdc++ internals, object lifetime of value_type); that part is the sanitizer correspondence: the same scripts run on the real headers under ASan+UBSan+checked iterators with an instance-counted heap-owning value type."),
+                                    "Verif.C15_rr_bijection", "Verif.Refines.runA", "Verif.Verified.C02_bound",
+                                    "Verif.L2.Rr.no_ub", "Verif.L2.Rr.refines_l1", "Verif.L2.Slot.no_ub", "Verif.L2.Slot.refines_l1",
+                                    "Verif.L2.Ttl.no_ub", "Verif.L2.Ttl.refines_l1", "Verif.L2.Fifo.no_ub", "Verif.L2.Fifo.refines_l1",
+                                    "Verif.L2.Cnt.no_ub", "Verif.L2.Cnt.refines_l1_lfu", "Verif.L2.Cnt.refines_l1_lfuda",
+                                    "Verif.L2.UtMap.no_ub", "Verif.L2.UtMap.refines_l1"],
+                explain="PARTIAL. Proved (L2.<c>.no_ub, all ten containers): the slot/node/iterator-level models - m_elements slots with their stored iterators, list nodes, hash / multimap / ttl nodes with identities, partition iterators - never reach the `ub` flag (dereference of end(), decrement of begin(), begin() of an empty structure, index out of range, erase/splice through a stale iterator) on any history, for every capacity >= 1; and (L2.<c>.refines_l1) they return the same results as the L1 models with abs(L2 state) = L1 state, so every L1 theorem transfers. The L2 models are tied to the code by the structural tier: after every call the private structure read through the guarded friend hook equals the L2 model's. Also proved: the bookkeeping invariants of every container model hold after every history (resident keys duplicate-free, size <= capacity so the partition point never passes the end and a prune always finds a victim, rr's slot ids + free stack a permutation of 0..cap-1 so no slot is handed out twice, tlru/utlru ttl structure consistent with and sorted like the entries, ut_map list sorted) - these are the model-level reasons the C++ never dereferences end(), never erases through a stale iterator, never indexes out of range. NOT proved: memory safety of the C++ itself (libstdc++ internals, object lifetime of value_type); that part is the sanitizer correspondence: the same scripts run on the real headers under ASan+UBSan+checked iterators with an instance-counted heap-owning value type."),
 }
